@@ -6,10 +6,11 @@ for every translated function, generated arguments go to the real Python functio
 driver; the canonicalised results must be equal.  Canonical form: ints exact, floats by repr (the model's
 symbolic `fdiv(a, b)` is evaluated as Python's `a / b`), sets sorted, errors as a small enum."""
 import collections
+import copy
 import importlib
 import re
 
-PROP_GROUPS = {'C20': ['sql'], 'C16': ['concat', 'duplicate'], 'C12': ['sortkey'], 'C04': ['driver'], 'C15': ['fields', 'delete_schema', 'select_schema', 'get_type'], 'C01': ['flow'], 'C07': ['flow', 'ejson', 'ejson_hook'], 'C11': ['join'], 'C02': ['join', 'get_type'], 'C10': ['matcher'], 'C14': ['handlers', 'vloop'], 'C17': ['rows'], 'C13': ['load']}
+PROP_GROUPS = {'C20': ['sql'], 'C16': ['concat', 'concat_map', 'duplicate'], 'C12': ['sortkey'], 'C04': ['driver'], 'C15': ['fields', 'delete_schema', 'select_schema', 'get_type'], 'C01': ['flow'], 'C07': ['flow', 'ejson', 'ejson_hook'], 'C11': ['join'], 'C02': ['join', 'get_type'], 'C10': ['matcher'], 'C14': ['handlers', 'vloop'], 'C17': ['rows'], 'C13': ['load']}
 
 
 # ---------------------------------------------------------------- encoding
@@ -102,6 +103,7 @@ def sort_list(c):
 
 # the order in which a Python set is enumerated is unspecified: `list(<set>)` is compared as a sorted list
 post_model = {'agg_set_finaliser': sort_list,
+              'concat_mapping_loop': lambda c: ['list'] + sorted((['tuple', kv[0], kv[1]] for kv in c[1:]), key=repr) if isinstance(c, list) and c and c[0] == 'dict' else c,
               'duplicate_traverse': lambda c: ['list'] + [['tuple'] + [[kv[1] for kv in d[1:] if kv[0] == ['str', k]][0] for k in ('name', 'path')] for d in c[1:]] if isinstance(c, list) and c and c[0] == 'list' else c,
               'select_schema_loop': lambda c: ['list'] + [[kv[1] for kv in f[1:] if kv[0] == ['str', 'name']][0] for f in c[1:]] if isinstance(c, list) and c and c[0] == 'list' else c,
               'delete_schema_loop': lambda c: ['list'] + [[kv[1] for kv in f[1:] if kv[0] == ['str', 'name']][0] for f in c[1:]] if isinstance(c, list) and c and c[0] == 'list' else c,
@@ -554,6 +556,46 @@ def run_sql(ctx, b, n):
               'env': [['mode', to_pv(eff)], ['converted_resource', to_pv(dict(conv, **{'table-name': 't'}))],
                       ['schema_descriptor', to_pv(schema)], ['update_keys', to_pv(None)]]}
         b.add_op(op, 'sql_update_keys', {'ok': writes[0]}, case=[eff, uk, pk])
+    b.flush()
+
+
+def run_concat_map(ctx, b, n):
+    """concatenate's field mapping: the mapping the real step applies (read off one probe row per candidate source name) or
+    its refusal, against the translated mapping loop"""
+    from dataflows import Flow
+    import dataflows as DF
+    from . import canon
+    from .common import quiet
+    rng = ctx.rng('pycorr-concat-map')
+    pool = ['a', 'b', 'c', 't', 'u']
+    for _ in range(n):
+        fields = {'__anchor__': None}
+        for t in rng.sample(['t', 'u', 'w', 'a'], rng.randint(1, 3)):
+            fields[t] = rng.choice([None, [], rng.sample(pool, rng.randint(1, 3))])
+        if rng.random() < 0.5:
+            fields = dict(reversed(list(fields.items())))
+        desc = canon.make_descriptor([{'name': 'r', 'fields': [(nm, 'string') for nm in pool + ['w', '__anchor__']]}])
+        probes = [{nm: 'x', '__anchor__': 'y'} for nm in pool + ['w']]
+        try:
+            with quiet():
+                ds = Flow(canon.pkg_source(desc, [probes]), DF.concatenate(copy.deepcopy(fields))).datastream()
+                out = [list(r) for r in ds.res_iter][0]
+            mapping = {'__anchor__': '__anchor__'}
+            for probe, row in zip(probes, out):
+                src = [k for k in probe if k != '__anchor__'][0]
+                hit = [k for k, v in row.items() if v == 'x']
+                if hit:
+                    mapping[src] = hit[0]
+            real = {'ok': sorted(mapping.items())}
+        except Exception as e:  # noqa
+            cause = getattr(e, 'cause', e)
+            if not isinstance(cause, RuntimeError):
+                raise
+            real = {'err': 'user'}
+        op = {'op': 'pyeval', 'fn': 'concat_mapping_loop', 'mode': 'value', 'args': [], 'want': 'field_mapping',
+              'env': [['fields', to_pv(fields)], ['field_mapping', to_pv({})]]}
+        b.add_op(op, 'concat_mapping_loop', real, post=lambda v: ['list'] + [['tuple', canon_py(k), canon_py(t)] for k, t in v],
+                 case=[{k: v for k, v in fields.items()}])
     b.flush()
 
 
@@ -1213,7 +1255,7 @@ def run_flow(ctx, b, n):
     b.flush()
 
 
-RUNNERS = {'sql': run_sql, 'duplicate': run_duplicate, 'get_type': run_get_type, 'select_schema': run_select_schema, 'delete_schema': run_delete_schema, 'concat': run_concat, 'ejson_hook': run_ejson_hook, 'sortkey': run_sortkey, 'ejson': run_ejson, 'driver': run_driver, 'fields': run_fields, 'flow': run_flow, 'load': run_load, 'vloop': run_vloop, 'join': run_join, 'matcher': run_matcher, 'handlers': run_handlers, 'rows': run_rows}
+RUNNERS = {'concat_map': run_concat_map, 'sql': run_sql, 'duplicate': run_duplicate, 'get_type': run_get_type, 'select_schema': run_select_schema, 'delete_schema': run_delete_schema, 'concat': run_concat, 'ejson_hook': run_ejson_hook, 'sortkey': run_sortkey, 'ejson': run_ejson, 'driver': run_driver, 'fields': run_fields, 'flow': run_flow, 'load': run_load, 'vloop': run_vloop, 'join': run_join, 'matcher': run_matcher, 'handlers': run_handlers, 'rows': run_rows}
 
 
 def run(ctx, groups=None, n=None):
